@@ -114,6 +114,7 @@ def round11(x):
 class DataFiles:
     def __init__(self, src):
         self.dir = os.path.join(src, "data")
+        self.malformed = {}     # file -> [(line number, text)] of lines that are not records
 
     def path(self, f):
         return os.path.join(self.dir, f)
@@ -122,32 +123,48 @@ class DataFiles:
         with open(self.path(f)) as fh:
             return fh.read().split()
 
+    def records(self, f, width):
+        """line-oriented reading of a record file: -> (list of token lists of well-formed lines, list of (line number, text) of the others).
+        The C reader is token oriented and gives up at the first token it cannot convert; reading by lines keeps every well-formed record
+        of the shipped file, so a malformed line shows up as a difference instead of being mirrored."""
+        good, bad = [], []
+        with open(self.path(f)) as fh:
+            for n, line in enumerate(fh, 1):
+                tok = line.split()
+                if not tok:
+                    continue
+                if len(tok) != width:
+                    bad.append((n, line.strip()[:80]))
+                    continue
+                good.append((n, tok))
+        return good, bad
+
     def scalar2(self, f):
         """'Z value' files -> {Z: value} (last record wins)"""
-        t = self.tokens(f)
+        good, bad = self.records(f, 2)
         out = {}
-        i = 0
-        while i + 1 < len(t):
+        for n, (a, b) in good:
             try:
-                z, v = int(t[i]), float(t[i + 1])
+                z, v = int(a), float(b)
             except ValueError:
-                break
+                bad.append((n, "%s %s" % (a, b)))
+                continue
             out[z] = v
-            i += 2
+        self.malformed[f] = bad
         return out
 
     def named3(self, f, scale=1.0):
         """'Z name value' files -> {(Z, name): value} (last record wins, like the loader)"""
-        t = self.tokens(f)
+        good, bad = self.records(f, 3)
         out = {}
-        i = 0
-        while i + 2 < len(t):
+        for n, (a, name, b) in good:
             try:
-                z, name, v = int(t[i]), t[i + 1], float(t[i + 2])
+                z, v = int(a), float(b)
             except ValueError:
-                break
+                bad.append((n, "%s %s %s" % (a, name, b)))
+                continue
             out[(z, name)] = v / scale if scale != 1.0 else v
-            i += 3
+        self.malformed[f] = bad
         return out
 
     def spline3(self, f, has_nz=False):
